@@ -160,6 +160,24 @@ class OpaqueT(TypeGen):
         return v
 
 
+class NpArrT(TypeGen):
+    """A real numpy object array of the given shape whose elements are made by `elem` (symbolic scalars)."""
+
+    def __init__(self, shape, elem):
+        self.shape = (shape,) if isinstance(shape, int) else tuple(shape)
+        self.elem = elem
+
+    def make(self, ctx, name):
+        import numpy as np
+        n = 1
+        for d in self.shape:
+            n *= d
+        out = np.empty(n, object)
+        for k in range(n):
+            out[k] = self.elem.make(ctx, '%s.%d' % (name, k))
+        return out.reshape(self.shape)
+
+
 class ObjT(TypeGen):
     """Instance of a real class with the given symbolic fields."""
 
@@ -378,6 +396,12 @@ def deep_equal(interp, a, b):
         return band([deep_equal(interp, a[k], b[k]) for k in a])
     if a is b:
         return True
+    if type(a).__module__ == 'numpy' and hasattr(a, 'shape') and type(b).__module__ == 'numpy' and hasattr(b, 'shape'):
+        if a.shape != b.shape or a.dtype != b.dtype:
+            return False
+        if a.dtype != object:
+            return bool((a == b).all())
+        return band([deep_equal(interp, x, y) for x, y in zip(a.flat, b.flat)])
     return equal(interp, a, b)
 
 
@@ -536,6 +560,9 @@ def input_vars(v, out=None):
             input_vars(x, out)
     elif isinstance(v, Obj):
         input_vars(v.fields, out)
+    elif type(v).__module__ == 'numpy' and getattr(v, 'dtype', None) == object:
+        for x in v.flat:
+            input_vars(x, out)
     elif isinstance(v, SymSeq):
         for s in tm.subterms(v.arr):
             if s.op == 'var':
@@ -602,6 +629,12 @@ def concretize(v, env, funs=REAL_FUNS):
     if tn == 'ArrVal':
         import numpy as np
         return np.asarray([[concretize(x, env, funs) for x in r] for r in v.rows], object)
+    if type(v).__module__ == 'numpy' and getattr(v, 'dtype', None) == object and hasattr(v, 'flat'):
+        import numpy as np
+        out = np.empty(v.size, object)
+        for k, x in enumerate(v.flat):
+            out[k] = concretize(x, env, funs)
+        return out.reshape(v.shape)
     return v
 
 
